@@ -301,6 +301,28 @@ def rw_strip_comments(toks, report):
     return [t if t.kind != COMMENT else T(WS, " ") for t in toks]
 
 
+def rw_vis(toks, report):
+    """R13: `pub(crate)` / `pub(super)` / `pub(in path)` -> `pub` (the generated file is a single
+    crate; visibility only)."""
+    out = []
+    i, n = 0, len(toks)
+    while i < n:
+        t = toks[i]
+        if t.kind == IDENT and t.text == "pub":
+            j = _next_sig(toks, i)
+            if j < n and toks[j].text == "(":
+                k = _next_sig(toks, j)
+                if k < n and toks[k].kind == IDENT and toks[k].text in ("crate", "super", "in", "self"):
+                    e = match_close(toks, j)
+                    out.append(t)
+                    report.append(("R13", "restricted visibility widened to pub"))
+                    i = e + 1
+                    continue
+        out.append(t)
+        i += 1
+    return out
+
+
 def rw_R1_logs(toks, report):
     """R1: tracing macro calls deleted (statement position) or replaced by `()` (value
     position)."""
@@ -1028,6 +1050,7 @@ def build(template_text: str, repo: str, unit: str) -> Built:
             toks = list(sf.toks[start:item.end])
             src_sha = hashlib.sha256(text_of(sf.toks[item.start:item.end]).encode()).hexdigest()
             toks = rw_strip_comments(toks, rep)
+            toks = rw_vis(toks, rep)
             if a.get("attrs") != "keep":
                 rep.append(("R13", "outer attributes / doc comments dropped"))
             if "R1" in ex.rules:
@@ -1139,6 +1162,7 @@ def _build_fn(sf: SourceFile, item: Item, impl, ex: Extract, props, rep, unit, a
         qual = qual + "#" + (a.get("blockname") or "block")
 
     sig_toks = rw_strip_comments(sig_toks, rep)
+    sig_toks = rw_vis(sig_toks, rep)
     body_toks = rw_strip_comments(body_toks, rep)
     rules = ex.rules
     if "R2" in rules:
